@@ -249,6 +249,10 @@ func (m *msgSource) payload(code uint64) ([]byte, string) {
 		vote := &types.Vote{Header: &types.VoteHeader{Round: head.Height() + 1, Step: uint8(rapid.SampledFrom([]int{1, types.ReductionOne, types.Final}).Draw(t, "step")), ParentHash: head.Hash(), VotedHash: m.someHash(),
 			TurnOffline: rapid.Bool().Draw(t, "off"), Upgrade: uint32(pick(t, "upg", 14))}}
 		signVote(vote, w.Actors[pick(t, "voter", len(w.Actors))])
+		if pick(t, "voteHeaderAbsent", 8) == 7 {
+			vote.Header = nil
+			return mustBytes(vote.ToBytes()), "vote-without-header"
+		}
 		return mustBytes(vote.ToBytes()), "vote"
 	case protocol.NewTx:
 		c := genHostileTx(t, w, v, nil)
@@ -674,6 +678,13 @@ func TestFrames(t *testing.T) {
 				if merr == nil {
 					decodedCode = msg.Code
 					evid.Count("frame.decoded." + codeName(msg.Code))
+					if msg.Code == protocol.Handshake {
+						// handle ignores it; readStatus decodes it at connection time
+						o := guardFast("handshakeData.FromBytes", in, func() { _ = new(protocol.VerifHandshakeData).FromBytes(msg.Payload) })
+						if verdict(t, o, "handshakeData.FromBytes", len(f.frame), in) {
+							panic(abandon{})
+						}
+					}
 				}
 			}
 			// the handler, exactly one iteration of runListening
